@@ -610,6 +610,16 @@ def fam_cosmo(rng, layout, d, i):
     z10, z20 = np.sort(rng.uniform(0.01, 1.0, size=n)), np.sort(rng.uniform(1.0, 3.0, size=n))
     if layout in ("int", "i4-swapped"):
         z10, z20 = np.zeros(n), np.arange(1, n + 1, dtype="f8") % 4 + 1
+    else:
+        # values a routine might be tempted to tidy up in place: a photometric redshift just below zero, an exact zero,
+        # a missing value
+        r = rng.random()
+        if r < .4:
+            z10[0] = -10.0 ** rng.uniform(-6, -2)
+        elif r < .5:
+            z10[0] = 0.0
+        if rng.random() < .15:
+            z20[-1] = np.nan
     z1, z2 = lay(z10, L), lay(z20, L)
     for fn in ("Dc", "Dm", "Da", "Dl", "sigmacritinv"):
         f = getattr(c, fn)
